@@ -733,8 +733,8 @@ impl Property for C08 {
 
     fn cases_per_shard(&self, tier: Tier) -> u32 {
         match tier {
-            Tier::Quick => 1000,
-            Tier::Thorough => 25_000,
+            Tier::Quick => 700,
+            Tier::Thorough => 6_000,
         }
     }
 
